@@ -202,6 +202,30 @@ def check_merge(ms, share, opts, syntax, explicit_list, host=None):
     return s, None
 
 
+def check_label(ms, share, syntax, explicit_list):
+    """The same mentions written on a <label> that wraps a form control (the label add-on drops an EMPTY `for` there): every
+    attribute the reference gives a non-empty value is on the label with that value (weak oracle: nothing valued is lost)."""
+    s = 'label' + source(ms, share)[1:] + '>input'
+    o = {'output.format': False}
+    if explicit_list:
+        o['output.booleanAttributes'] = list(BOOL_LIST)
+    exp = reference(ms, {}, syntax, explicit_list)
+    try:
+        ev = lex_html(expand(s, {'syntax': syntax, 'options': o}))
+        got = ev[0][2] if ev and ev[0][0] == 'o' and ev[0][1] == 'label' else None
+    except Exception as e:
+        return s, ('exception:%s' % type(e).__name__, str(e)[:200])
+    if got is None:
+        return s, ('attrs:no-tag', dict(abbr=s))
+    have = dict((g[0], g[2]) for g in got)
+    def norm_(v):
+        return ' '.join(v.split()) if isinstance(v, str) else v           # (an empty class mention may leave a space, see check_merge)
+    lost = [(e[0], e[2]) for e in exp if e[2] and e[1] != 'XMLBOOL' and norm_(have.get(e[0])) != norm_(e[2])]
+    if lost:
+        return s, ('attrs:valued-attribute-lost-on-a-label-that-wraps-a-control', dict(abbr=s, lost=lost, actual=got))
+    return s, None
+
+
 def classify(exp, got):
     if got and got[0] == 'NO-TAG':
         return 'attrs:no-tag'
@@ -277,6 +301,15 @@ def run_shard(shard, ctx, tier):
                                 if bad:
                                     ctx.violation(bad[0], dict(mentions=[m[0] for m in ms], share=share, options=opts, syntax=syntax,
                                                                explicit_boolean_list=bl, abbr=s2, host=HOST_ALIAS), bad[1])
+                            if n <= 2 and not opts and syntax in ('html', 'jsx'):
+                                ctx.states += 1
+                                ctx.transitions += 1
+                                ctx.evals += 1
+                                ctx.validated += 1
+                                s3, bad = check_label(ms, share, syntax, bl)
+                                if bad:
+                                    ctx.violation(bad[0], dict(mentions=[m[0] for m in ms], share=share, options=opts, syntax=syntax,
+                                                               explicit_boolean_list=bl, abbr=s3, host='LABEL'), bad[1])
                             if n <= 2 and len(opts) <= 1:
                                 # the same element inside repeaters: every copy carries the same attribute list
                                 for host in HOSTS_REPEAT:
@@ -371,6 +404,9 @@ def check_case(case):
         _, bad = check_payload(case['host'], tuple(case['units']))
         return [bad] if bad and bad != 'excluded' else []
     ms = tuple(BY_SRC[s] for s in case['mentions'])
+    if case.get('host') == 'LABEL':
+        _, bad = check_label(ms, case['share'], case['syntax'], case['explicit_boolean_list'])
+        return [bad] if bad else []
     _, bad = check_merge(ms, case['share'], case['options'], case['syntax'], case['explicit_boolean_list'], case.get('host'))
     return [bad] if bad else []
 
